@@ -756,8 +756,22 @@ def path_parser_ctx(p, res):
     after > the context is pushed and the element becomes the context; after + nothing changes; each ^ pops one context,
     only while the stack is non-empty) and of group() (`(` statements `)` optional repeater) against the reviewed ones"""
     from .tablecheck import check_table
+
+    def never_popped(p, f):
+        """the context stack is pushed but nothing ever removes an entry: contexts that were left stay pending"""
+        pushed = {src_of(n.func.value) for n in f.body_nodes() if isinstance(n, ast.Call) and isinstance(n.func, ast.Attribute) and n.func.attr == 'append'
+                  and isinstance(n.func.value, ast.Name) and n.func.value.id in f.locals and n.args and isinstance(n.args[0], ast.Name)}
+        for st in sorted(pushed):
+            removes = [n for n in f.body_nodes() if (isinstance(n, ast.Call) and isinstance(n.func, ast.Attribute) and n.func.attr in ('pop', 'clear', 'remove') and src_of(n.func.value) == st)
+                       or (isinstance(n, ast.Delete) and any(st in src_of(t) for t in n.targets))
+                       or (isinstance(n, ast.Assign) and any(src_of(t).startswith(st) for t in n.targets) and not isinstance(n.value, (ast.List,)))]
+            reads_top = [n for n in f.body_nodes() if isinstance(n, ast.Subscript) and src_of(n.value) == st and isinstance(n.ctx, ast.Load)]
+            if not removes and reads_top:
+                return reads_top[0], src_of(p.enclosing_stmt(f, reads_top[0])), 'the context stack `%s` is pushed on > but never popped: after a climb the contexts that were left stay on it, so a later ^ returns to a stale context' % st
+        return None
     check_table(p, res, 'PATH-PARSER-CTX', 'abbreviation.parser.statements',
-                'every parsed element is appended to the current context once; > pushes the context and descends; + keeps it; each ^ pops one context and stops at the top level')
+                'every parsed element is appended to the current context once; > pushes the context and descends; + keeps it; each ^ pops one context and stops at the top level',
+                detectors=(never_popped,))
     check_table(p, res, 'PATH-PARSER-CTX', 'abbreviation.parser.group', 'a group is `(` statements `)` followed by an optional repeater')
     check_table(p, res, 'PATH-PARSER-CTX', 'abbreviation.parser.element', 'an element is name, attributes / shorthands and text in any order, then the self-closing mark and the repeater; it must consume something')
     res.require_floor(3)
